@@ -571,6 +571,11 @@ func (rs *rootSet) walk(v ssa.Value, depth int) {
 			}
 		} else if rs.walkModuleCall(x, 0, depth+1) {
 			// result derives from arguments according to the callee's body (module helper)
+		} else if n := calleeName(&x.Call); n == "bytes.NewReader" || n == "bytes.NewBuffer" || n == "bytes.NewBufferString" {
+			// reader constructors: the stream is its argument
+			for _, a := range x.Call.Args {
+				rs.walk(a, depth+1)
+			}
 		} else if isProjection(&x.Call) {
 			// pure projections of the receiver (tx.TxHash(), header.BlockHash(), block.GetHeader(), …)
 			if x.Call.IsInvoke() {
